@@ -1332,6 +1332,16 @@ impl TensorStore {
 
         // Clear current and copy data from new router
         self.router.clear();
+
+        // Slabs that are not addressed by key (relational tables and rows,
+        // graph tensor edges, blob log chunks) are carried over as a whole;
+        // the loop below only reaches entries that `scan` lists.
+        self.router
+            .relations
+            .replace_with(new_router.relations.snapshot());
+        self.router.graph.replace_with(new_router.graph.snapshot());
+        self.router.blobs.replace_with(new_router.blobs.snapshot());
+
         for key in new_router.scan("") {
             if let Ok(value) = new_router.get(&key) {
                 // Best-effort restore - continue even if individual entries fail
